@@ -1,4 +1,11 @@
-"""Per-property configuration of ./check (what is proved, what is run, what is trusted)."""
+"""Per-property configuration of ./check, loaded from /verif/props/Cnn.json.
+
+Each file: {"check": {rule, trivial_tags, required_tags, timeout, assumptions, extra_trusted_base, ...},
+            "manifest": {text, design_ref, note, technique}}
+"""
+import glob, json, os
+
+V = os.path.dirname(os.path.dirname(os.path.abspath(__file__)))
 
 COMMON_TB = [
     "Lean 4.33.0 kernel (theorems in lean/Huginn/Props/<id>.lean; axioms limited to propext, Classical.choice, Quot.sound, enforced by #print axioms on every run)",
@@ -7,18 +14,12 @@ COMMON_TB = [
     "specifications in lean/Huginn/Spec/* are a reading of the property statement and the public formats it cites",
 ]
 
-PROPS = {
-    "C14": {
-        "trusted_base": COMMON_TB + [
-            "ipnetwork::Ipv{4,6}Network::contains and the address/CIDR string parsers of std/ipnetwork are third-party: modelled (Net.contains), exercised for every prefix length, not proved",
-        ],
-        "assumptions": [
-            "ports are u16, addresses are 32/128-bit (AddrWF, SubnetWF hypotheses of the theorem; the Rust types guarantee them)",
-            "a side whose only constraints are empty ranges is left unspecified by the statement and is not compared against the specification (still compared against the model)",
-        ],
-        "rule": "cases = corpus witnesses + exhaustive mode x sub-filter presence x side selection x per-sub-filter hit/miss grid + PRNG-generated configurations (boundary ports 0/1/65534/65535, empty and reversed ranges, IPv4/IPv6 lists, CIDR prefixes 0..32/128 with endpoints at the first bit outside / last bit inside each prefix) evaluated on all three crates' FilterConfig; distinct = distinct case line (blake2b of the input tokens); non-trivial = the model did not take the 'no sub-filter configured' early exit",
-        "trivial_tags": [r"(allow|deny):T"],
-        "required_tags": {"quick": [r"allow\+port.*:T", r"allow\+port.*:F", r"deny\+port.*:T", r"deny\+port.*:F", r".*\+ip.*:T", r".*\+subnet.*:T", r".*\+any:T", r"pm-any:T", r"pm-sides:F", r"cidr32/0:T", r"cidr32/full:F", r"cidr128/mid:T", r"cidr128/mid:F"]},
-        "timeout": {"quick": 600, "thorough": 3000},
-    },
-}
+PROPS = {}
+META = {}
+for f in sorted(glob.glob(os.path.join(V, "props", "C*.json"))):
+    pid = os.path.basename(f)[:-5]
+    d = json.load(open(f))
+    c = d["check"]
+    c["trusted_base"] = COMMON_TB + c.get("extra_trusted_base", [])
+    PROPS[pid] = c
+    META[pid] = d["manifest"]
